@@ -67,13 +67,18 @@ def prepare(tier, seed):
 
 def frame(lv, holes=False, cat=False):
     key = (tuple(lv), holes, cat)
-    if cat and key not in _FR:  # the same data stored as unordered Categoricals whose categories are not in sorted order
+    if cat and cat != "bigk" and key not in _FR:  # the same data stored as unordered Categoricals whose categories are not in sorted order
         import pandas as pd
 
         df = frame(lv, holes).copy()
         for c in ("f", "f2", "g", "h"):
             lvls = sorted(set(df[c]))
             df[c] = pd.Categorical(df[c], categories=lvls[1:][::-1] + lvls[:1], ordered=(cat == "ord"))  # "ord": a declared order other than the sorted one
+        _FR[key] = df
+    if cat == "bigk" and key not in _FR:  # group ids that are long numbers (day stamps stored as floats)
+        df = frame(lv, holes).copy()
+        ks = sorted(set(df["k"]))
+        df["k"] = df["k"].map({v: 20240101.0 + i for i, v in enumerate(ks)})
         _FR[key] = df
     if key not in _FR:
         d = dict(zip(["f", "f2", "g", "h", "k"], lv))
@@ -124,6 +129,7 @@ def units(tier, seed):
         ]
         u.append([{"lv": list(lv), "holes": holes, "terms": p} for p in pairs])
         if lv == vecs[0]:
+            u.append([dict(c, cat="bigk") for c in block if "k" in c["terms"][0][2]])
             for kind in (True, "ord"):
                 u.append([dict(c, cat=kind) for c in block])
                 u.append([{"lv": list(lv), "holes": holes, "terms": p, "cat": kind} for p in pairs])
